@@ -835,6 +835,13 @@ def csv_to_merchants_content(csv_rules: List[Tuple]) -> str:
 
         match_expr = " and ".join(parts) if parts else "true"
 
+        # A row without category and tags never had any effect; a .rules block
+        # without either would make the whole file unloadable.
+        if not (category or '').strip() and not tags:
+            lines.append(f"# Skipped (no category or tags): {pattern}")
+            lines.append("")
+            continue
+
         # Write rule block
         lines.append(f"[{merchant}]")
         lines.append(f"match: {match_expr}")
